@@ -95,6 +95,9 @@ def build(spec, order=None, only=None):
         cls = E.CLS[o["cls"]] if o["cls"] in E.CLS else EXTRA_CLASSES[o["cls"]]
         kwargs = {p: val(vs, objs) for p, vs in o["params"].items()}
         objs[n] = cls(n, **kwargs)
+        if o.get("rename"):
+            # distinct objects may carry the same display name (two Countries.FRANCE() calls): nothing may be keyed by it
+            objs[n].name = o["rename"]
     return objs
 
 
